@@ -7,6 +7,7 @@ import (
 	"go/types"
 	"math/big"
 	"sort"
+	"strconv"
 	"strings"
 
 	"golang.org/x/tools/go/ssa"
@@ -882,6 +883,26 @@ func canonCall(t *Term) *Term {
 		return nil
 	}
 	switch t.Name {
+	case "builtin.copy":
+		// copy moves min(len(dst), len(src)) elements: with both lengths constant the longer operand is cut to that
+		if d, sr := arg(0), arg(1); d != nil && sr != nil {
+			dlo, dn, ok1 := constSliceLen(d)
+			slo, sn, ok2 := constSliceLen(sr)
+			if ok1 && ok2 && dn != sn {
+				n := dn
+				if sn < n {
+					n = sn
+				}
+				nd, ns := d, sr
+				if dn > n {
+					nd = &Term{Op: "slice", V: d.V, Args: []*Term{d.Args[0], d.Args[1], mkConst(big.NewInt(dlo+n), nil)}}
+				}
+				if sn > n {
+					ns = &Term{Op: "slice", V: sr.V, Args: []*Term{sr.Args[0], sr.Args[1], mkConst(big.NewInt(slo+n), nil)}}
+				}
+				return &Term{Op: "call", Name: t.Name, V: t.V, Args: []*Term{nd, ns}}
+			}
+		}
 	case "strings.LastIndexByte", "strings.IndexByte", "bytes.IndexByte", "bytes.LastIndexByte":
 		// IndexByte(s, c) == Index(s, string(c)) for an ASCII constant c
 		if c, ok := isConstInt(arg(1)); ok && c.Sign() >= 0 && c.Cmp(big.NewInt(128)) < 0 && strings.HasPrefix(t.Name, "strings.") {
@@ -942,6 +963,32 @@ var digestSizes = map[string]int64{"crypto/sha512.New": 64, "crypto/sha256.New":
 // canonSlice: `var d [N]byte; h.Sum(d[:0]); d[:]` holds the digest exactly like
 // h.Sum(nil) when N is the digest size of h; the whole-array slice of such a
 // buffer becomes call<(hash.Hash).Sum>(h, nil).
+// arrayAllocLen: t is alloc<[N]T> (a local array or the backing store of make([]T, N)).
+func arrayAllocLen(t *Term) (int64, bool) {
+	if t.Op != "alloc" || !strings.HasPrefix(t.Name, "[") {
+		return 0, false
+	}
+	i := strings.Index(t.Name, "]")
+	if i < 2 {
+		return 0, false
+	}
+	n, err := strconv.ParseInt(t.Name[1:i], 10, 64)
+	return n, err == nil
+}
+
+// constSliceLen: the length of slice(x, lo, hi) with constant bounds.
+func constSliceLen(t *Term) (lo, n int64, ok bool) {
+	if t.Op != "slice" || len(t.Args) != 3 {
+		return 0, 0, false
+	}
+	l, ok1 := isConstInt(t.Args[1])
+	h, ok2 := isConstInt(t.Args[2])
+	if !ok1 || !ok2 || !l.IsInt64() || !h.IsInt64() || h.Int64() < l.Int64() {
+		return 0, 0, false
+	}
+	return l.Int64(), h.Int64() - l.Int64(), true
+}
+
 func canonSlice(t *Term) *Term {
 	if len(t.Args) != 3 {
 		return t
@@ -969,6 +1016,16 @@ func canonSlice(t *Term) *Term {
 		return canonSlice(&Term{Op: "slice", V: t.V, Args: []*Term{in.Args[0], lo, hi}})
 	}
 	base := t.Args[0]
+	// a[lo:N] of an array [N]T is a[lo:]
+	if hi, isC := isConstInt(t.Args[2]); isC {
+		root := base
+		if root.Op == "obj" && len(root.Args) > 0 {
+			root = root.Args[0]
+		}
+		if n, ok := arrayAllocLen(root); ok && hi.IsInt64() && hi.Int64() == n {
+			t = &Term{Op: "slice", V: t.V, Args: []*Term{t.Args[0], t.Args[1], {Op: "none"}}}
+		}
+	}
 	if base.Op != "obj" || len(base.Args) != 2 || base.Args[0].Op != "alloc" {
 		return t
 	}
@@ -1589,7 +1646,16 @@ func (b *Builder) pathTerm(addr, root ssa.Value, depth int) *Term {
 		if x.Low == nil {
 			lo = &Term{Op: "const", Name: "0", C: constant.MakeInt64(0)}
 		}
-		return b.mk("slice", "", nil, b.pathTerm(x.X, root, depth), lo, b.ofOpt(x.High, x, depth+1))
+		hi := b.ofOpt(x.High, x, depth+1)
+		if x.High == nil {
+			// a[lo:] of an array is a[lo:N] (make([]T, N) is lowered to exactly that)
+			if pt, ok := x.X.Type().Underlying().(*types.Pointer); ok {
+				if at, ok := pt.Elem().Underlying().(*types.Array); ok {
+					hi = mkConst(big.NewInt(at.Len()), nil)
+				}
+			}
+		}
+		return b.mk("slice", "", nil, b.pathTerm(x.X, root, depth), lo, hi)
 	case *ssa.ChangeType:
 		return b.pathTerm(x.X, root, depth)
 	}
